@@ -23,10 +23,6 @@ def isDynArray (m : Module) (h : Nat) : Bool :=
 def structHasRtsArrayMember (m : Module) (members : List Member) : Bool :=
   members.any fun mem => isDynArray m mem.ty
 
-def unwrapName (tag : String) : Option String → G String
-  | some n => .ok n
-  | none => .error (.panic ("unwrap:" ++ tag))
-
 /-- `struct_members`: one field per (non-builtin) member; `idx` counts from 0, `len` = number of members -/
 def structMembersFrom (m : Module) (o : Options) (len : Nat) : Nat → List Member → G (List RField)
   | _, [] => .ok []
